@@ -16,8 +16,8 @@ func (n NativeLenFn) Call(i *Interpreter, arguments []interface{}) (interface{},
 		return nil, fmt.Errorf("len function only works on arrays")
 	}
 
-	// Return the length of the array
-	return len(array), nil
+	// Return the length of the array as an ordinary number (a Go int could not be used in arithmetic or ==)
+	return float64(len(array)), nil
 }
 
 func (n NativeLenFn) Arity() int {
